@@ -379,7 +379,7 @@ fn admission_generated() -> (Vec<Failure>, u64) {
 pub fn run(ctx: &Ctx) -> i32 {
     let col = Collector::new();
     let w = world();
-    let maxlen = ctx.tier.pick(2, 3) as u32;
+    let maxlen = ctx.tier.pick(2, 4) as u32;
     let two = true;
     let k = 5u64;
     let nseq = seq_count(k, maxlen);
